@@ -2,6 +2,19 @@
 COMMON = ['mc/common.c', 'mc/tramp.S']
 BFS = COMMON + ['mc/bfs.c']
 
+ALG = COMMON + ['mc/algs.c', 'ref/ref_modes.c', 'ref/ref_aead.c', 'ref/ref_3gpp.c']
+
+def _shape(pid, what):
+    return {
+        'level': 'exploration',
+        'technique': 'bounded-exhaustive enumeration of input shapes on the real library (alone and co-scheduled) against an independent reference model',
+        'level_text': f'Every {what} row x direction x every valid length up to the dense bound (+ stripes at the carry / 16-bit / per-mode limits) x IV forms (incl. counter carry and wrap classes) x tag lengths x AAD lengths x offsets x in/out-of-place x all 7 reachable variants is executed on the real library, alone and with 23 other jobs in flight, and compared with the reference model. The space of shapes is enumerated completely; data bytes come from a seed.',
+        'level_note': 'Trusted: OpenSSL block primitives + the hand-written modes/3GPP references (validated at setup against published vectors). Data values outside the seed-derived alphabet and lengths between the dense sweep and the stripes are outside the bound.',
+        'drivers': [{'name': 'shape', 'src': ['props/shape.c'] + ALG, 'cfgs': ['std'], 'args': pid}],
+        'deadline': {'quick': 900, 'thorough': 3000},
+        'assumptions': ['reference model correct (setup-time self-tests against published vectors and OpenSSL EVP modes)'],
+    }
+
 PROPS = {
     'C05': {
         'level': 'model_checking',
@@ -31,5 +44,9 @@ PROPS = {
                         'OOO managers not reachable by the job alphabet stay pristine (not snapshotted)'],
     },
 }
+
+PROPS['C01'] = _shape('C01', 'cipher')
+PROPS['C02'] = _shape('C02', 'hash/MAC/CRC')
+PROPS['C03'] = _shape('C03', 'AEAD/combined-mode')
 
 NOT_APPLICABLE = {}
